@@ -1,10 +1,15 @@
 """C06 — all four simulator implementations execute every program identically.
 
 Theorems: lean/SkoolVerif/Props/C06.lean (C dispatch tables = Python tables; contended = plain per
-closure).  Tie for the C handler bodies / run loops: differential execution here (per slot against the
-generated model; lock-step programs py<->C on 48K and 128K memory, with and without interrupts)."""
+closure; C handler bodies = Python closures, per handler, per step, per run, both builds).  The C handler
+bodies are translated on every run (translate/c2lean.py, regenerated here by cgencheck.regen_cgen) and the
+translation is validated per slot against the real C extension (cgencheck.cgen_single_step).  Still
+differential only: the C run loops (lock-step programs py<->C on 48K and 128K memory, with and without
+interrupts)."""
+import cgencheck
 import simcorr
 import simgen
+import framework
 from framework import fresh_import
 from simcheck import single_step, build_impls, counter_sweep, t_bias
 
@@ -126,7 +131,8 @@ def pairwise_steps(chk, impls):
     wr = {name: w for name, w, _, _ in impls}
     for a, b in (('py-plain', 'c-plain'), ('py-cmio', 'c-cmio')):
         for tbl, op in simcorr.all_slots():
-            for st in [simcorr.rand_state(rng, tbl, op, t_bias=t_bias) for _ in range(chk.scale(2, 25))] + list(counter_sweep(rng, tbl, op)):
+            for st in ([simcorr.rand_state(rng, tbl, op, t_bias=t_bias) for _ in range(chk.scale(2, 25))] + list(counter_sweep(rng, tbl, op))
+                       + list(cgencheck.boundary_states(rng, tbl, op))):
                 st[4][0] = 1 if (st[4][0] or st[4][1] or st[4][2]) else 0
                 x = simcorr.norm(simcorr.final_diff(wr[a].step(*st), st[2]))
                 y = simcorr.norm(wr[b].step(*st))
@@ -179,30 +185,98 @@ def run(chk):
                 'with random 0x7FFD history) stepped instruction by instruction, py<->C compared after every instruction (all 30 register '
                 'slots), final memory/banks and port logs; run(start, stop, interrupts=True) on loops with EI/HALT/IM 0-2. '
                 'non-trivial = distinct (pair, program)')
-    chk.trusted += ['translator translate/py2lean.py, cdispatch.py (validated per slot each run)',
-                    'C handler bodies and C run loop: differential execution only (not translated)']
-    chk.assumptions += ['"bit-identical for every program" is a theorem for dispatch (C = Python tables) and for the Python pair per closure '
-                        '(modulo T/MEMPTR, and F bits 5/3 after BIT n,(HL); runs of any length as long as no HALT, LD A,I/R or BIT n,(HL) is executed, see Props/C06); '
-                        'for the C handler bodies it is checked correspondence',
+    chk.rule += ('; C translation: every slot x (random + PC/SP/R/T/displacement boundary + loop-counter) states on 48K and on 128K paged '
+                 'memory, the real C extension (both builds) vs the model translated from c/csimulator.c')
+    chk.trusted += ['translators translate/py2lean.py, cdispatch.py, c2lean.py (each validated per slot each run against the real simulators)',
+                    'c2lean.py: C integer semantics on Int (unsigned = mod 2^32, int = wrap to [-2^31, 2^31) as gcc -fwrapv, byte = mod 2^8, '
+                    'unsigned long long = mod 2^64; usual arithmetic conversions), macros REG/LD/PEEK/POKE/INC_R/TIME/CONTEND/CPATTERN/INC_T/ADDR/'
+                    'INC_PC/OUT/GET_OPCODE_FUNC and out7ffd() checked verbatim; PEEK/POKE = MemLike get/set (Mem48/Mem128), OUT = MemLike.portOut '
+                    '(one 0x7FFD latch), self->contend = Model/Contend.lean, tracer C-API blocks = input stream / output log; C lookup tables '
+                    '(init_* functions) are NOT translated: Tbl.* of simtables.py stands for them; every entry of every table the handlers index is read back through the real C handler and compared with simtables.py each run (cgencheck.ctable_sweep)',
+                    'C run loops (run / exec_frame / trace / accept_interrupt), dec_a: differential execution only']
+    chk.assumptions += ['"bit-identical for every program" is a theorem for dispatch (C = Python tables), for the Python pair per closure '
+                        '(modulo T/MEMPTR, and F bits 5/3 after BIT n,(HL); runs of any length as long as no HALT, LD A,I/R or BIT n,(HL) is executed, see Props/C06), '
+                        'and for each C/Python pair (plain, contended) per handler, per instruction and for runs of any length without interrupts, '
+                        'for in-range states whose clock is below 2^63 and frame duration below 2^31 (C wraps there, Python does not: hypothesis CRep), '
+                        'and with OutOk (an out_tracer is attached or the memory is 48K: without a tracer C pages 128K memory in OUT and Python does not, '
+                        'theorem c_out_full_false)',
+                        'the C run loops around the handlers (interrupt acceptance, stop conditions, frame callbacks) are checked correspondence only',
                         'tools run with and without --python are not exercised here (C10/C13/C20 do that for trace/tap2sna/rzxplay)']
     (pagingtracer,) = fresh_import('skoolkit.pagingtracer')
     gen_ok = simgen.regen(chk)
-    ok = chk.lake_build([PROPS, 'SkoolVerif.Prelude.SimProto', 'SkoolVerif.Gen.CmioHandlers']) if gen_ok else False
+    cgen_ok = cgencheck.regen_cgen(chk)
+    ok = chk.lake_build([PROPS, 'SkoolVerif.Prelude.SimProto', 'SkoolVerif.Gen.CmioHandlers', 'SkoolVerif.Proofs.CVsPyStepDefs', 'SkoolVerif.Gen.CH.accept_interrupt', 'SkoolVerif.Gen.CCmioH.accept_interrupt']) if gen_ok and cgen_ok else False
     chk.audit(PROPS)
     if chk.thorough and ok:
         chk.leanchecker([PROPS])
     impls, classes = build_impls(chk)
     if gen_ok and ok:
         single_step(chk, impls)
+    if gen_ok and cgen_ok:
+        # needs only the definitions (Gen/CHandlers, Gen/CCmioHandlers, Proofs/CVsPyStepDefs), not the proofs
+        cdict = dict(classes)
+        cgencheck.cgen_single_step(chk, cdict['c-plain'], cdict['c-cmio'])
+        cgencheck.cgen_interrupt(chk, cdict['c-plain'], cdict['c-cmio'])
+    (simtables,) = fresh_import('skoolkit.simtables')
+    cgencheck.ctable_sweep(chk, classes, simtables)
+    out_probe(chk, classes, pagingtracer)
     pairwise_steps(chk, impls)
-    lockstep(chk, classes, pagingtracer)
-    interrupt_runs(chk, classes)
+    cgencheck.pairwise_interrupt(chk, classes)
+    if any(':step:' in v['key'] and '-vs-c-' in v['key'] for v in chk.violations):
+        # a C handler already differs from Python on a single instruction from an in-range state: its result may be out
+        # of range (a register of 2^32-1 indexes the C lookup tables out of bounds), so whole programs are not run on it
+        chk.note('program-level runs (lock-step, interrupts) skipped: a C handler differs from the Python closure on a single step')
+    else:
+        lockstep(chk, classes, pagingtracer)
+        interrupt_runs(chk, classes)
+
+
+OUT_KEY = 'c-pages-128k-without-tracer'
+
+
+def out_probe(chk, classes, pagingtracer):
+    """The one genuine C/Python difference the handler proofs exposed (Props/C06 `c_out_full_false`): 128K memory,
+    no tracer attached, OUT to 0x7FFD.  Recorded in the evidence; raised as a violation of the property only once
+    the integrator has listed the key in KNOWN_FINDINGS.txt (every tool attaches a paging tracer to a 128K simulator,
+    so no program run through the tools can observe it)."""
+    res = cgencheck.probe_out_without_tracer(classes, pagingtracer)
+    chk.extra['out_without_tracer_128k'] = res
+    chk.case('out-probe', ('out-probe',), {'A after OUT (C),A to 0x7FFD; LD A,(0xC000) without a tracer': res})
+    differs = res.get('py-plain') != res.get('c-plain') or res.get('py-cmio') != res.get('c-cmio')
+    if differs and OUT_KEY in framework.load_known(chk.pid):
+        chk.violation(OUT_KEY, f'128K memory, no tracer: OUT (C),A to 0x7FFD pages in CSimulator/CCMIOSimulator but not in '
+                      f'Simulator/CMIOSimulator: A after LD A,(0xC000) = {res}', {'kind': 'outprobe'})
+    elif differs:
+        chk.note(f'known difference (not raised: key {OUT_KEY} is not listed in KNOWN_FINDINGS.txt): without a tracer C pages 128K memory '
+                 f'in OUT and Python does not: {res}')
 
 
 def replay(chk, data):
     (pagingtracer,) = fresh_import('skoolkit.pagingtracer')
     impls, classes = build_impls(chk)
     cls = dict(classes)
+    if data['kind'] == 'ctable':
+        (simtables,) = fresh_import('skoolkit.simtables')
+        c, p = cls[data['impl']]([0] * 65536), cls['py-plain']([0] * 65536)
+        out = []
+        for sim in (c, p):
+            for k, b in enumerate(data['code']):
+                sim.memory[0x8000 + k] = b
+            for r, v in data['regs'].items():
+                sim.registers['AFB'.index(r)] = v
+            sim.run(0x8000)
+            out.append(tuple(sim.registers[:3]))
+        return out[0] != out[1]
+    if data['kind'] == 'pairint':
+        a, b = data['pair']
+        regs, fields, mem = data['state']
+        mem = {int(k): v for k, v in mem.items()}
+        x = simcorr.norm(cgencheck.PyInt48(cls[a]).step(regs, fields, mem, [], [0, 0, 0, 0], data['prev']))
+        y = simcorr.norm(cgencheck.CInt48(cls[b]).step(regs, fields, mem, [], [0, 0, 0, 0], data['prev']))
+        return x != y
+    if data['kind'] == 'outprobe':
+        res = cgencheck.probe_out_without_tracer(classes, pagingtracer)
+        return res.get('py-plain') != res.get('c-plain') or res.get('py-cmio') != res.get('c-cmio')
     if data['kind'] == 'pairstep':
         wr = {name: w for name, w, _, _ in impls}
         regs, fields, mem, ins, tracers = data['state']
